@@ -69,7 +69,7 @@ def cases(tier, seed):
         for L in range(1, Lmax + 1):
             if not h.model_available(model, L) or (d == 4 and L > Lmax - 1):
                 continue
-            for bstyle in ('reduced', 'complete', 'reduced2', 'one'):
+            for bstyle in ('reduced', 'complete', 'reduced2', 'one', 'random'):
                 if L == 1 and bstyle != 'reduced':
                     continue
                 for dtkind in ('real', 'imag', 'complex', 'complex'):
@@ -118,9 +118,13 @@ def run_case(c):
         return skip('zero state')
     D0 = h.bond_dims(psi)
     fullrank = h.schmidt_ranks(v0, d, L) == D0
+    returns_only = False
     if not fullrank:
-        # rank-deficient point of the manifold: outside the validity of both oracles
-        return skip('state is rank deficient')
+        # rank-deficient point of the manifold (e.g. a bond larger than its neighbours allow): outside the validity of both
+        # oracles; the reverse kind still requires that both calls return ("for any bond dimension")
+        if c['kind'] != 'reverse':
+            return skip('state is rank deficient')
+        returns_only = True
     # Krylov count covers every local problem (symmetry-allowed entries; bond dimensions cannot grow here)
     nloc = h.local_dims(qd, st['qD'], twosite=(integ == 'two'))
     numiter = c['nitfac'] * nloc + 2
@@ -158,6 +162,10 @@ def run_case(c):
         fail('returns', f'{where}: backward call raised {type(e).__name__}: {e}')
         return dict(failures=fails, nontrivial=nontrivial, key=key)
     v2 = oracle.mps_dense(psi.A)
+    if returns_only:
+        if not (np.all(np.isfinite(v2)) and np.isfinite(complex(nrm2))):
+            fail('returns', f'{where}: non-finite result at a rank-deficient state')
+        return dict(failures=fails, nontrivial=False, key=key)
     try:
         back = complex(nrm2) * v2
         n2 = float(np.real(nrm2))
